@@ -26,7 +26,10 @@ RULE = (
     "sofa, indexed in a view, referenced by a TOP- / ByteArray-ranged feature or an FSArray element --, one id-less structure) "
     "where in two thirds of the "
     "cases only about a third of the index members are kept, so that the other structures are reachable only through "
-    "references, FSArray / FSList elements, TOP-ranged features or shared collections; type_system_mode FULL / MINIMAL, "
+    "references, FSArray / FSList elements, TOP-ranged features or shared collections; in 40% collections sit where ordinary "
+    "structures do (FSArray / primitive array / FSList under a TOP-ranged feature, an FSList head, nested in an FSArray; "
+    "elements preferably not indexed), in 25% one feature name is declared on unrelated types with different ranges "
+    "(xmicommon.collections_as_targets / same_name_features); type_system_mode FULL / MINIMAL, "
     "pretty_print and ensure_ascii alternate.  A case is non-trivial when it has >= 2 structures and a reference or "
     "collection slot is set."
 )
@@ -69,9 +72,21 @@ def make_scenario(sub, k, big=False):
     da_feats = C02._extend(r, cassis, tspec, cspec)
     # sofa byte arrays shared by two sofas / indexed / referenced (d1bc860): each is one structure, written once
     knobs = C02.share_sofa_arrays(random.Random(sub ^ 0x50FA), cassis, tspec, da_feats, cspec)
+    # third-wave widening (own streams; the rest of the scenario is what it was): collections as ordinary reference targets
+    # (FSArray under a TOP-ranged feature / an FSList head / nested in an FSArray, elements not indexed), one feature name on
+    # unrelated types with different ranges.  New structures get explicit ids clear of the ids the generator hands out.
+    from harness.props import xmicommon as xc
+    r1, r2 = random.Random(sub ^ 0x5A3E), random.Random(sub ^ 0xC011)
+    above = C02.next_id(cspec) + 8
+    wide = {}
+    if r1.random() < 0.25:
+        wide["same_name"] = xc.same_name_features(r1, cassis, tspec, cspec, above=above)
+    if r2.random() < 0.4:
+        wide["coll_targets"] = xc.collections_as_targets(r2, cassis, tspec, cspec, above=above,
+                                                         schema=C02.schema2(cassis, tspec, da_feats))
     return {"tspec": tspec, "da_feats": da_feats, "cspec": cspec,
             "cfg": {"mode": MODES[k % 2], "pretty": (k // 2) % 2 == 0, "ascii": (k // 4) % 2 == 0, "pruned": pruned,
-                    "array_knobs": knobs}}
+                    "array_knobs": knobs, "wide": wide}}
 
 
 def generate(rng, tier):
